@@ -110,6 +110,16 @@ def run(pid, tier, replay=None):
         cases = T.corpus(c, thorough, thorough)
         tr2 = T.observe(c, cases, 70, 0, limit=None if thorough else 8)
         T.validate(c, "C05", tr2)
+    if pid == "C02":
+        # the decisive leg on REAL types: universe extraction through MetaType::type_info() vs the registry
+        from checks import texprcommon as T, derivecommon as DC
+        cases = T.corpus(c, thorough, thorough)
+        tr4 = T.observe(c, cases, 70, 0, limit=None if thorough else 8)
+        T.validate(c, "C02", tr4)
+        decls = DC.declarations(c, tier, with_encoded_as=True, nrand=600 if thorough else 150, for_codec=False)
+        tr5, failed = DC.observe(c, decls, False, 0)
+        if failed: raise vlib.ToolError("derive program does not compile: %s" % failed[0][0])
+        DC.validate_all(c, "C02", tr5)
     if pid == "C11":
         # (iii) on real built-in types: each corpus program registers its expressions in three orders
         from checks import texprcommon as T
